@@ -38,7 +38,9 @@ type PlugScript struct {
 	DelayBefore int64      `json:"delay_before_ns,omitempty"`
 	DelayMid    int64      `json:"delay_mid_ns,omitempty"`
 	DelayAfter  int64      `json:"delay_after_ns,omitempty"`
-	Hang        string     `json:"hang,omitempty"` // before | mid | after
+	Hang        string     `json:"hang,omitempty"`          // before | mid | after
+	DieBySignal string     `json:"die_by_signal,omitempty"` // before | mid | after: somebody else kills the process at that moment (OOM killer, operator)
+	DieOnce     bool       `json:"die_once,omitempty"`      // ... only the first time this executable is started
 	Exit        int        `json:"exit,omitempty"`
 	ExitAfter   *int       `json:"exit_after,omitempty"`    // exit (with Exit) after that many bytes of stdout
 	OutPrefix   string     `json:"out_prefix,omitempty"`    // names of files are prefixed with the request's OutputPath if set to "$OUT"
@@ -294,6 +296,12 @@ func pluginProgram(p *simrt.Proc, raw json.RawMessage) int {
 	if sc.DelayBefore > 0 {
 		p.Sleep(time.Duration(sc.DelayBefore))
 	}
+	dies := func(when string) bool {
+		return sc.DieBySignal == when && (!sc.DieOnce || p.Execution() == 1)
+	}
+	if dies("before") {
+		p.Die("killed")
+	}
 	if sc.Hang == "before" {
 		p.Hang()
 	}
@@ -347,6 +355,9 @@ func pluginProgram(p *simrt.Proc, raw json.RawMessage) int {
 	}
 	if sc.DelayMid > 0 {
 		p.Sleep(time.Duration(sc.DelayMid))
+	}
+	if dies("mid") {
+		p.Die("killed")
 	}
 	if sc.Hang == "mid" {
 		p.Hang()
@@ -437,6 +448,9 @@ func pluginProgram(p *simrt.Proc, raw json.RawMessage) int {
 	p.Note("out.written", limit)
 	if sc.DelayAfter > 0 {
 		p.Sleep(time.Duration(sc.DelayAfter))
+	}
+	if dies("after") {
+		p.Die("killed")
 	}
 	if sc.Hang == "after" {
 		p.Hang()
